@@ -13,7 +13,9 @@ RECURSIVE Runs(_)
 Runs(n) == IF n = 0 THEN {<<>>} ELSE Runs(n - 1) \cup {Append(r, w) : r \in {q \in Runs(n - 1) : Len(q) = n - 1}, w \in Ws}
 
 A_ == <<97>>  Eacute == <<233>>  RB == <<125>>  PCT == <<37>>  QUOTE == <<39>>  Emoji == <<128512>>
-CoresAll == {<<>>, A_, Eacute, RB, PCT, QUOTE, Emoji}
+\* characters that look like whitespace but are not what a trim marker removes
+NBSP_ == <<160>>  FF_ == <<12>>  VT_ == <<11>>  IDSP == <<12288>>  EMSP == <<8195>>  NEL == <<133>>
+CoresAll == {<<>>, A_, Eacute, RB, PCT, QUOTE, Emoji, NBSP_, FF_, IDSP, VT_, EMSP, NEL}
 CoresFew == {<<>>, A_}
 
 T(c) == [t |-> "text", c |-> c]
@@ -24,19 +26,23 @@ Markups ==
   {[t |-> "out", tl |-> a, tr |-> b, pad |-> p] : a \in BOOLEAN, b \in BOOLEAN, p \in 0..MaxPad} \cup
   {[t |-> "tag", tl |-> a, tr |-> b, pad |-> p] : a \in BOOLEAN, b \in BOOLEAN, p \in 0..MaxPad}
 
-Triples ==
-  {<<T(l), m, T(r)>> : l \in Lefts(CoresAll, 1), m \in Markups, r \in Rights(CoresAll, 1)} \cup
-  {<<T(l), m, T(r)>> : l \in Lefts(CoresFew, MaxRun), m \in {q \in Markups : q.pad = 1}, r \in Rights(CoresFew, MaxRun)} \cup
-  (IF WideCores THEN {<<T(l), m, T(r)>> : l \in Lefts(CoresAll, MaxRun), m \in {q \in Markups : q.pad = 1 /\ q.tl /\ q.tr},
-                                          r \in Rights(CoresFew, 1)} ELSE {}) \cup
-  \* two markups in a row, and text only
-  {<<T(l), m1, T(mid), m2, T(r)>> : l \in {A_ \o <<SP>>}, m1 \in {q \in Markups : q.pad = 1}, mid \in Runs(2),
-                                    m2 \in {q \in Markups : q.pad = 1}, r \in {<<LF>> \o A_}} \cup
-  {<<T(c \o r \o d)>> : c \in CoresAll, r \in Runs(MaxRun), d \in CoresAll}
+\* cases are produced in two steps (seed, then case) so that TLC's workers share the enumeration
+TripleSeeds == {[sd |-> "m", m |-> m] : m \in Markups} \cup {[sd |-> "two", m1 |-> m] : m \in {q \in Markups : q.pad = 1}} \cup
+               {[sd |-> "plain", c |-> c] : c \in CoresAll}
+TriplesOf(seed) ==
+  CASE seed.sd = "m" ->
+         {<<T(l), seed.m, T(r)>> : l \in Lefts(CoresAll, 1), r \in Rights(CoresAll, 1)} \cup
+         (IF seed.m.pad = 1 THEN {<<T(l), seed.m, T(r)>> : l \in Lefts(CoresFew, MaxRun), r \in Rights(CoresFew, MaxRun)} ELSE {}) \cup
+         (IF WideCores /\ seed.m.pad = 1 /\ seed.m.tl /\ seed.m.tr
+          THEN {<<T(l), seed.m, T(r)>> : l \in Lefts(CoresAll, MaxRun), r \in Rights(CoresFew, 1)} ELSE {})
+    [] seed.sd = "two" ->
+         {<<T(A_ \o <<SP>>), seed.m1, T(mid), m2, T(<<LF>> \o A_)>> : mid \in Runs(2), m2 \in {q \in Markups : q.pad = 1}}
+    [] seed.sd = "plain" -> {<<T(seed.c \o r \o d)>> : r \in Runs(MaxRun), d \in CoresAll}
 
 (* ---- blocks ---- *)
 S(str) == str
-IfBodies  == {<<>>, <<98>>, <<SP, 98, SP>>, <<TAB, 98, LF>>, <<SP>>, <<LF, CR, LF>>, <<TAB, TAB>>}
+IfBodies  == {<<>>, <<98>>, <<SP, 98, SP>>, <<TAB, 98, LF>>, <<SP>>, <<LF, CR, LF>>, <<TAB, TAB>>,
+              <<160, 98, 160>>, <<12, 98, 12288>>, <<SP, 160, SP>>, <<11, 133, 8195>>}
 \* raw bodies: things that look like markup, unterminated markup, trimming tags
 RawBodies == IfBodies \cup
   { <<123,123, 32, 121, 32, 125,125>>,            \* {{ y }}
@@ -61,21 +67,24 @@ OuterR == {<<>>, <<SP>> \o A_, <<TAB>>, <<CR, LF>> \o A_}
 \* probe appended after every block program: shows whether a comment had side effects
 Probe == <<123,37, 32, 105,102, 32, 115, 32, 37,125, 83, 123,37, 32, 101,110,100,105,102, 32, 37,125,     \* {% if s %}S{% endif %}
            123,37, 32, 105,110,99,114,101,109,101,110,116, 32, 99, 32, 37,125>>                          \* {% increment c %}
-BlockCases ==
-  {<<T(l), [t |-> "block", kind |-> kd, tl1 |-> a, tr1 |-> b, tl2 |-> c, tr2 |-> d, body |-> bd], T(r)>> :
-      l \in Outer, r \in OuterR, kd \in {"if", "raw", "comment"}, a \in BOOLEAN, b \in BOOLEAN, c \in BOOLEAN, d \in BOOLEAN,
-      bd \in RawBodies \cup CommentBodies}
+BlockSeeds == {[sd |-> "block", kind |-> kd, a |-> a, b |-> b, c |-> c, d |-> d] :
+                 kd \in {"if", "raw", "comment"}, a \in BOOLEAN, b \in BOOLEAN, c \in BOOLEAN, d \in BOOLEAN}
+BlocksOf(seed) ==
+  {<<T(l), [t |-> "block", kind |-> seed.kind, tl1 |-> seed.a, tr1 |-> seed.b, tl2 |-> seed.c, tr2 |-> seed.d, body |-> bd], T(r)>> :
+      l \in Outer, r \in OuterR, bd \in Bodies(seed.kind)}
 
 IsBlockCase(t) == \E i \in 1..Len(t) : t[i].t = "block"
-WellFormedBlock(t) == \A i \in 1..Len(t) : t[i].t = "block" => t[i].body \in Bodies(t[i].kind)
-Cases == Triples \cup {t \in BlockCases : WellFormedBlock(t)}
+CasesOf(seed) == IF seed.sd = "block" THEN BlocksOf(seed) ELSE TriplesOf(seed)
 
-VARIABLE tmpl
-Init == tmpl \in Cases
-Next == UNCHANGED tmpl
-Spec == Init /\ [][Next]_tmpl
+VARIABLE st
+Init == st \in TripleSeeds \cup BlockSeeds
+Next == st.sd # "case" /\ \E t \in CasesOf(st) : st' = [sd |-> "case", t |-> t]
+Spec == Init /\ [][Next]_st
+IsCase == st.sd = "case"
+tmpl == st.t
 
-Inv == /\ IdentityOnPlainText(tmpl)
+Inv == IsCase =>
+       /\ IdentityOnPlainText(tmpl)
        /\ GrammarLayerRefinesExpected(tmpl)
        /\ (\A i \in 1..Len(tmpl) : tmpl[i].t # "block") => TextNonWs(tmpl) = NonWs(SelectSeq(Expected(tmpl), LAMBDA c : c # 88))
                                                           \/ \E i \in 1..Len(tmpl) : tmpl[i].t = "text" /\ 88 \in {tmpl[i].c[j] : j \in 1..Len(tmpl[i].c)}
@@ -85,5 +94,5 @@ Record ==
    src |-> Source(tmpl) \o (IF IsBlockCase(tmpl) THEN Probe ELSE <<>>), data |-> <<>>,
    expect |-> [ok |-> TRUE, out |-> Expected(tmpl) \o (IF IsBlockCase(tmpl) THEN <<48>> ELSE <<>>)],
    nt |-> HasMarkup(tmpl)]
-Emit == EmitAll => PrintT(<<"REPLAY", ToJson(Record)>>)
+Emit == (EmitAll /\ IsCase) => PrintT(<<"REPLAY", ToJson(Record)>>)
 =============================================================================
